@@ -191,6 +191,21 @@ class Opaque(object):
         return "Opaque(%s)" % self.tag
 
 
+class Abstract(object):
+    """An object the executor keeps abstract (an element of a list built by a comprehension over a
+    symbolic range, or an attribute path of one).  Everything done to it is recorded as an event:
+    ('set', obj, attr, value), ('store', obj, attr, key, value), ('mcall', obj, method, args, kw).
+    `key` identifies it: (list id, index term) for elements, (owner, attribute name) for paths."""
+    __slots__ = ('tag', 'key')
+
+    def __init__(self, tag, key):
+        self.tag = tag
+        self.key = key
+
+    def __repr__(self):
+        return "Abstract(%s,%r)" % (self.tag, self.key)
+
+
 def is_array(v):
     return isinstance(v, (ArrRef, PureArr, Masked))
 
